@@ -394,9 +394,14 @@ def main():
     d = os.path.join(wd, 'opt'); os.makedirs(d)
     open(os.path.join(d, 'pre.h'), 'w').write('#ifdef X\npre_X_defined X\n#else\npre_X_undefined\n#endif\n#define FROM_PRE 5\n')
     open(os.path.join(d, 'pre2.h'), 'w').write('second FROM_PRE\n#undef Y\n')
-    open(os.path.join(d, 'm.c'), 'w').write('main X Y FROM_PRE\n#ifdef Y\nhasY\n#endif\n')
+    open(os.path.join(d, 'm.c'), 'w').write('main X Y FROM_PRE\n#ifdef Y\nhasY\n#endif\nF(3) F G(2, 4) G\n#include "once.h"\n#include "guard.h"\nend ONCE_SEEN GUARD_SEEN\n')
+    open(os.path.join(d, 'once.h'), 'w').write('#pragma once\nonce_text\n#define ONCE_SEEN 1\n')
+    open(os.path.join(d, 'guard.h'), 'w').write('#ifndef GUARD_H\n#define GUARD_H\nguard_text\n#define GUARD_SEEN 1\n#endif\n')
     optsets = [['-DX=1'], ['-DX=1', '-UX'], ['-UX', '-DX=2'], ['-DX', '-DX=3'], ['-DY=7', '-include', 'pre.h'], ['-include', 'pre.h', '-DX=4'], ['-include', 'pre.h', '-include', 'pre2.h', '-DY=1'],
-               ['-DY=1', '-UY', '-DY=2', '-include', 'pre2.h'], ['-D', 'X=9', '-U', 'Q'], ['-DX=(1+2)', '-include', 'pre.h']]
+               ['-DY=1', '-UY', '-DY=2', '-include', 'pre2.h'], ['-D', 'X=9', '-U', 'Q'], ['-DX=(1+2)', '-include', 'pre.h'],
+               # function-like macros from the command line; a header with #pragma once / an include guard given with -include and included again by the text
+               ['-DF(x)=x+1'], ['-DF(x)', '-DG(a,b)=b a'], ['-DF(x)=#x', '-UF', '-DG(a, b)=a##b'], ['-include', 'once.h'], ['-include', './once.h', '-include', 'once.h'], ['-include', 'guard.h', '-DF(x)=x'],
+               ['-include', 'once.h', '-include', 'pre.h', '-DX=F(1)', '-DF(x)=(x)']]
     for os_ in optsets:
         evals += 1; nontriv += 1; count('option-order')
         rc, out, err = sh([chibi, '-E'] + os_ + ['m.c'], cwd=d, timeout=30)
